@@ -199,15 +199,21 @@ func (borderRadius *borderRadiusTracker) compactRules(rules []css_ast.Rule, keyR
 
 	// Remove all of the existing declarations
 	var minLoc logger.Loc
+	var lastRuleIndex uint32
 	for i, corner := range borderRadius.corners {
 		if loc := rules[corner.ruleIndex].Loc; i == 0 || loc.Start < minLoc.Start {
 			minLoc = loc
 		}
+		if corner.ruleIndex > lastRuleIndex {
+			lastRuleIndex = corner.ruleIndex
+		}
 		rules[corner.ruleIndex] = css_ast.Rule{}
 	}
 
-	// Insert the combined declaration where the last rule was
-	rules[borderRadius.corners[3].ruleIndex] = css_ast.Rule{Loc: minLoc, Data: &css_ast.RDeclaration{
+	// Insert the combined declaration where the last rule was (not where the
+	// rule of the last corner was: a declaration that was kept because of its
+	// unit may sit in between and must stay overridden)
+	rules[lastRuleIndex] = css_ast.Rule{Loc: minLoc, Data: &css_ast.RDeclaration{
 		Key:       css_ast.DBorderRadius,
 		KeyText:   "border-radius",
 		Value:     tokens,
